@@ -302,6 +302,16 @@ func (q qiDecoder) mapValue(v reflect.Value) error {
 func (q qiDecoder) value(v reflect.Value) error {
 	switch v.Kind() {
 	case reflect.Interface:
+		if v.IsNil() && v.CanSet() {
+			// an empty interface field (such as a value.Value
+			// inside a struct) is filled from its type.
+			el, err := q.readValue(v.Type())
+			if err != nil {
+				return fmt.Errorf("read %v: %w", v.Type().Name(), err)
+			}
+			v.Set(el)
+			return nil
+		}
 		i := v.Interface()
 		b, ok := i.(BinaryDecoder)
 		if ok {
